@@ -105,6 +105,11 @@ CLAIMS = {
             'effective address, value modulo width, zero-extended result, destination); C04_byte_swaps / C04_wide_load / C04_helper_call_shape: le/be at 16, 32, 64 bits and lddw '
             'define the ISA value (lddw without intermediate overflow), helper calls are keyed by the unsigned immediate, take r1..r5 and define r0, local calls are refused; '
             'C04_jump_blocks / C04_brif_successors: on an accepted program each jump\'s taken successor is the block of the ISA target pc (an instruction start), the other the block of the next pc. '
+            'Composition (ClStep.v, ClRun.v): C04_step_refines -- the effect of the IR built for one instruction (cl_exec: arm value -> set_dst, bounds check -> access, '
+            'condition -> successor; hand-written over the regenerated arms) is the ISA step whenever the ISA step succeeds, for every opcode the verifier accepts '
+            '(C04_accepted_opcodes_translated); C04_run_refines -- for every accepted program with helper calls only, every input and budget, the run of cl_exec from the '
+            'registers of the regenerated prelude (C04_entry_registers: the interpreter\'s but for r2) returns the ISA value and leaves the ISA memory; cl_run is evaluated '
+            'inside Coq against the real compiled code on every run (value, packet and metadata bytes, traps). '
             'How blocks are laid out and sealed, what a called helper does and Cranelift code generation are not modelled: compiled code is executed '
             'against the interpreter (= ISA by C01) on the same corpus as C03; programs with local calls must be refused (ERR) by compilation. This search found that '
             'every 64-bit conditional jump was compiled as its 32-bit variant (fixed: 742bb11).',
